@@ -344,8 +344,8 @@ theorem constants_match_source :
     ((List.range 256).filter (fun n => CMap.isWs (UInt8.ofNat n)) = Generated.lexWhitespace) ∧
     ((List.range 256).filter (fun n => CMap.isDelim (UInt8.ofNat n)) = Generated.lexDelimiters) := by
   refine ⟨?_, ?_, ?_⟩
-  · decide +kernel
-  · decide +kernel
-  · decide +kernel
+  · first | decide +kernel | fail "constants_match_source (C19): the model's Widths.maxCid does not match the source (Generated.maxCid, re-extracted from pdf/src)"
+  · first | decide +kernel | fail "constants_match_source (C19): the model's CMap.isWs does not match the source (Generated.lexWhitespace, re-extracted from pdf/src)"
+  · first | decide +kernel | fail "constants_match_source (C19): the model's CMap.isDelim does not match the source (Generated.lexDelimiters, re-extracted from pdf/src)"
 
 end C19
